@@ -55,7 +55,9 @@ func (pr *previewReader) RenderPreview(r io.Reader, h meta.PreviewHeader) error 
 		if readLength == 0 {
 			break
 		}
-		if chunk < maxSize {
+		// (the piece grows with what has arrived, not with the number of reads:
+		// a reader may deliver a byte at a time)
+		if chunk < maxSize && uint32(readLength) == n {
 			chunk *= 2
 		}
 	}
